@@ -21,3 +21,11 @@ pub fn map_detached(cmds: Vec<Exec>) -> (r: Vec<Exec>)
             &&& b.config.stdin == a.config.stdin && b.config.stdout == a.config.stdout && b.config.stderr == a.config.stderr && b.config.env == a.config.env && b.config.cwd == a.config.cwd
         },
 { unimplemented!() }
+
+// R6: `iterable.into_iter().collect()` in Pipeline::from_exec_iter: the elements the iterator yields, in order
+pub trait ExecSource: Sized { spec fn items(&self) -> Seq<Exec>; }
+#[verifier::external_body]
+pub fn collect_execs<I: ExecSource>(iterable: I) -> (r: Vec<Exec>) ensures r@ == iterable.items() { unimplemented!() }
+// R6: the documented panic of from_exec_iter (fewer than two elements): reaching it is a violated precondition
+#[verifier::external_body]
+pub fn documented_panic() -> ! requires false { unimplemented!() }
